@@ -1,4 +1,4 @@
-//! C17: CRC.  Case forms (see ocaml/drv_C17.ml):  T i | V prefix byte | S bytes | P piece piece ...
+//! C17: CRC.  Case forms (see ocaml/drv_C17.ml):  T i | V prefix byte | S bytes | D bytes (fresh state via Default) | P piece piece ...
 use trion::uf2::crc::Crc;
 use verif_harness::*;
 
@@ -9,6 +9,8 @@ fn run_case(case: &str) -> String
 	{
 		"T" => { let i = usize::from_str_radix(t[1], 16).unwrap(); format!("{:x}", Crc::TABLE[i]) },
 		"S" => { let mut c = Crc::new(); c.update_slice(&parse_hex_bytes(t[1])); format!("{:x}", c.get_value()) },
+		// D: like S, the fresh state obtained through the Default impl
+		"D" => { let mut c = Crc::default(); c.update_slice(&parse_hex_bytes(t[1])); format!("{:x}", c.get_value()) },
 		"P" =>
 		{
 			let mut c = Crc::new();
@@ -44,6 +46,9 @@ fn main()
 			// the standard check string, the empty string, exactly 252 bytes (the boot2 use)
 			emit("S 313233343536373839".to_string(), &mut out);
 			emit("S -".to_string(), &mut out);
+			emit("D 313233343536373839".to_string(), &mut out);
+			emit("D -".to_string(), &mut out);
+			for n in [1usize, 4, 5, 252] { let d = rng.bytes(n); emit(format!("D {}", hex_bytes(&d)), &mut out); }
 			emit(format!("S {}", hex_bytes(&vec![0u8; 252])), &mut out);
 			emit(format!("S {}", hex_bytes(&vec![0xFFu8; 252])), &mut out);
 			// single update from many reachable states x all 256 bytes
